@@ -107,6 +107,8 @@ class DilutionPlan:
         # transfer from stock until the volume is too low
         for c in range(C):
             vtransfer = numpy.round(vmax_arr[c] * ideal_targets[:, c] / stock, 0)
+            # (rounding must not lift the transfer above a vmax that is no whole number of microliters)
+            vtransfer = numpy.minimum(vtransfer, numpy.floor(vmax_arr[c]))
             if all(vtransfer >= min_transfer):
                 instructions.append((c, 0, "stock", vtransfer))
                 # compute the actually achieved target concentration
